@@ -105,7 +105,9 @@ def r1b_mechanism(rep, ctx):
                 problems.append("default_category is returned without testing that it is set")
         for r, st, _ in kinds["quantity_type"]:
             facts = cfg.facts_at(r)
-            if not any((not val) and _is_attr_term(res, e, "default_category") for e, val in facts):
+            # (every value the tested name can hold must be a unit info's default_category: a constant None
+            # on one path means that path never consulted the unit's own default category)
+            if not any((not val) and _is_attr_term(res, e, "default_category", every=True) for e, val in facts):
                 problems.append("the quantity-type fallback is not reserved for units without default_category")
             from ..facts import norm_fact
             nf = [norm_fact(e, val) for e, val in facts]
@@ -129,9 +131,9 @@ def r1b_mechanism(rep, ctx):
               "no Quantity(...) in ObtainQuantity takes its category from GetDefaultCategory(unit)", fn=oq)
 
 
-def _is_attr_term(res, e, attr):
+def _is_attr_term(res, e, attr, every=False):
     t = res.term(e)
-    return any(a[0] == "attr" and a[2] == attr for a in alternatives(t))
+    return (all if every else any)(a[0] == "attr" and a[2] == attr for a in alternatives(t))
 
 
 def _param_set(t):
